@@ -1,6 +1,8 @@
 #!/bin/bash
 # tools/all_thorough.sh [-P n]  - run the thorough tier of all 20 checks in parallel; summary lines only
-P=${2:-6}
+P=${2:-4}
+# each check runs its variants in GDSTK_SA_JOBS worker processes: P x jobs should not exceed the cores
+export GDSTK_SA_JOBS=${GDSTK_SA_JOBS:-$(( $(nproc) / P > 0 ? $(nproc) / P : 1 ))}
 cd "$(dirname "$0")/.."
 make -s build/gx || exit 2
 seq -w 1 20 | xargs -P $P -I{} sh -c './check C{} --tier thorough > build/thorough.C{}.log 2>&1; echo "C{} rc=$? $(grep -c "missed   (expected caught)\|caught   (expected silent)" build/thorough.C{}.log) unexpected"'
